@@ -1,21 +1,49 @@
 (** Evaluator glue for C19: replays a whole history of checks, clock advances
     and evictions on the model and compares, step by step, verdict, error,
     outgoing question and cache contents with what the real Checker did. *)
-From AGH Require Import Base.Run Base.Bytes Model.HashPrefix.
+From Coq Require Export Uint63.
+From AGH Require Import Base.Run Base.Bytes Model.HashPrefix Model.HashPrefixBytes.
 Local Open Scope Z_scope.
+
+(** Byte strings of the case terms arrive packed, seven bytes to a primitive
+    integer (first byte lowest, the count in the three lowest bits): Coq
+    elaborates one literal instead of seven list cells of binary numbers. *)
+Definition ibit (x i : Uint63.int) (v : N) : N :=
+  if Uint63.eqb (Uint63.land (Uint63.lsr x i) 1) 0 then 0%N else v.
+Definition byte_N (x : Uint63.int) : N :=
+  (ibit x 0 1 + ibit x 1 2 + ibit x 2 4 + ibit x 3 8
+   + ibit x 4 16 + ibit x 5 32 + ibit x 6 64 + ibit x 7 128)%N.
+Fixpoint bytes_of (len : nat) (x : Uint63.int) : bytes :=
+  match len with
+  | O => []
+  | S l => byte_N x :: bytes_of l (Uint63.lsr x 8)
+  end.
+Definition len_of (x : Uint63.int) : nat :=
+  let l := Uint63.land x 7 in
+  if Uint63.eqb l 0 then 0 else if Uint63.eqb l 1 then 1 else if Uint63.eqb l 2 then 2
+  else if Uint63.eqb l 3 then 3 else if Uint63.eqb l 4 then 4 else if Uint63.eqb l 5 then 5
+  else if Uint63.eqb l 6 then 6 else 7.
+Definition u1 (n : Uint63.int) : bytes := bytes_of (len_of n) (Uint63.lsr n 3).
+Inductive il := I0 | IC (x : Uint63.int) (l : il).
+Arguments u1 n%uint63_scope.
+Arguments IC x%uint63_scope l.
+Fixpoint ub (l : il) : bytes :=
+  match l with I0 => [] | IC x l' => u1 x ++ ub l' end.
 
 Inductive cop :=
   (* host, scripted upstream failure, the cache.Set calls the check made (key,
      entries the LRU evicted for it, item kept?); observed: blocked, error,
-     question sent, cache entries (prefix, remaining-life class, hashes) *)
+     question sent, cache entries (prefix, remaining-life class, hashes), the
+     size in bytes the golibs cache reports (Stats().Size) *)
   | CCheck (host : bytes) (fail : bool) (sets : list (bytes * list bytes * bool))
            (obs_blocked obs_err : bool) (obs_q : option bytes)
-           (obs_cache : list (bytes * Z * list bytes))
+           (obs_cache : list (bytes * Z * list bytes)) (obs_size : Z)
   | CAdvance (secs : Z)
   | CEvict (ps : list bytes).
 
 Inductive case :=
   | Case (suffix : bytes) (cache_time_s : Z)
+         (max : Z)                                      (* Config.CacheSize in bytes, 0 = unlimited *)
          (sha_tbl : list (bytes * bytes))               (* crypto/sha256 of every name involved *)
          (ps_tbl : list (bytes * (bytes * bool)))       (* publicsuffix.PublicSuffix of every host *)
          (db : list bytes)                              (* the TXT strings the scripted service holds *)
@@ -54,30 +82,37 @@ Definition cache_agrees (now : Z) (c : cache) (obs : list (bytes * Z * list byte
 
 Definition to_op db (o : cop) : op :=
   match o with
-  | CCheck host fail sets _ _ _ _ =>
+  | CCheck host fail sets _ _ _ _ _ =>
       OCheck host (raw_service db fail) (map (fun e => fst (fst e)) sets)
              (map (fun e => (snd (fst e), snd e)) sets)
   | CAdvance s => OAdvance (s * ns_sec)
   | CEvict ps => OEvict ps
   end.
 
-Definition step_ok (sha_tbl : list (bytes * bytes)) (ps_tbl : list (bytes * (bytes * bool))) (o : cop) (res : (Z * cache) * option check_out) : bool :=
+(** The model's cache, counted as the golibs cache counts (2-byte key, 8 bytes
+    of expiry, 32 bytes per hash), is what the real cache reports, and within
+    the configured size. *)
+Definition size_agrees (max : Z) (c : cache) (obs_size : Z) : bool :=
+  (cache_bytes c =? obs_size) && ((max =? 0) || (obs_size <=? max)).
+
+Definition step_ok (max : Z) (sha_tbl : list (bytes * bytes)) (ps_tbl : list (bytes * (bytes * bool))) (o : cop) (res : (Z * cache) * option check_out) : bool :=
   match o, res with
-  | CCheck host _ _ b e q oc, ((now, c), Some out) =>
+  | CCheck host _ _ b e q oc sz, ((now, c), Some out) =>
+      size_agrees max c sz &&
       Nat.eqb (o_sets_left out) 0 &&
       forallb (fun n => match lookup sha_tbl n with Some _ => true | None => false end)
               (names_to_hash (ps_of ps_tbl) host) &&
       match lookup ps_tbl host with Some _ => true | None => false end &&
       Bool.eqb (o_blocked out) b && Bool.eqb (o_err out) e &&
       eqb_option eqb_bytes (o_question out) q && cache_agrees now c oc
-  | CCheck _ _ _ _ _ _ _, _ => false
+  | CCheck _ _ _ _ _ _ _ _, _ => false
   | _, (_, None) => true
   | _, _ => false
   end.
 
 Definition model_run (c : case) :=
   match c with
-  | Case suffix ct sha_tbl ps_tbl db ops =>
+  | Case suffix ct _ sha_tbl ps_tbl db ops =>
       run (sha_of sha_tbl) (ps_of ps_tbl) suffix (ct * ns_sec) (map (to_op db) ops) (0, [])
   | CaseVia suffix sha_tbl ps_tbl db spelled _ _ =>
       [((0, []), Some (snd (check_host (sha_of sha_tbl) (ps_of ps_tbl) suffix (3600 * ns_sec)
@@ -93,7 +128,7 @@ Fixpoint all2 {A B} (f : A -> B -> bool) (a : list A) (b : list B) : bool :=
 
 Definition case_ok (c : case) : bool :=
   match c with
-  | Case suffix ct sha_tbl ps_tbl db ops => all2 (step_ok sha_tbl ps_tbl) ops (model_run c)
+  | Case suffix ct max sha_tbl ps_tbl db ops => all2 (step_ok max sha_tbl ps_tbl) ops (model_run c)
   | CaseVia suffix sha_tbl ps_tbl db spelled q b =>
       let name := caller_name spelled in
       let out := snd (check_host (sha_of sha_tbl) (ps_of ps_tbl) suffix (3600 * ns_sec)
@@ -106,7 +141,7 @@ Definition case_ok (c : case) : bool :=
 
 Definition mismatches := Base.Run.mismatches case_ok.
 
-(** For replay files: per step verdict, error, question, cache (prefix, class, #hashes). *)
+(** For replay files: per step verdict, error, question, cache (prefix, class, #hashes), bytes. *)
 Definition explain (c : case) :=
   map (fun res : (Z * cache) * option check_out =>
     let '((now, ch), out) := res in
@@ -114,5 +149,6 @@ Definition explain (c : case) :=
      | Some o => Some (o_blocked o, o_err o, o_question o)
      | None => None
      end,
-     map (fun e : prefix * citem => (fst e, life_class now (snd e), length (c_hashes (snd e)))) ch))
+     map (fun e : prefix * citem => (fst e, life_class now (snd e), length (c_hashes (snd e)))) ch,
+     cache_bytes ch))
     (model_run c).
